@@ -29,8 +29,94 @@ func init() {
 				}})
 			}
 		}
+		for _, msize := range []uint32{64, 100, 256} {
+			msize := msize
+			cases = append(cases, core.Case{ID: fmt.Sprintf("client/coalesced-groups/msize=%d", msize), Run: func(ctx *core.Ctx) core.Result {
+				return c13ClientGroups(ctx, msize, tier == "thorough")
+			}})
+		}
 		return cases
 	})
+}
+
+// c13ClientGroups: many rounds of k = 2..4 concurrent calls whose replies arrive coalesced in ONE segment, the next
+// round only starting when all of them have returned (a client that waits for its replies): over the rounds the
+// groups land at every position of the client's receive buffer, also right at its end. The same replies, one per
+// segment, are the reference: every call of every round returns its own answer.
+func c13ClientGroups(ctx *core.Ctx, msize uint32, thorough bool) core.Result {
+	var res core.Result
+	L := int(msize) - go9p.IOHDRSZ
+	rounds := 400
+	if thorough {
+		rounds = 4000
+	}
+	for _, mode := range []string{"one-segment", "per-message"} {
+		s, err := connect(msize, true, false)
+		if err != nil {
+			res.Inconclusive = "c13 client: " + err.Error()
+			return res
+		}
+		r := core.NewRand(ctx.Seed, fmt.Sprintf("c13groups/%d", msize))
+		for round := 0; round < rounds; round++ {
+			if round%100 == 0 {
+				ctx.Beat()
+			}
+			k := 2 + r.Intn(3)
+			calls := make([]call, k)
+			results := make([]string, k)
+			var wg sync.WaitGroup
+			for i := range calls {
+				calls[i] = call{kind: "read", fidn: uint32(1000 + round*8 + i), offset: uint64(round), count: uint32(r.Intn(L + 1))}
+				wg.Add(1)
+				go func(i int) { defer wg.Done(); results[i] = s.do(calls[i]) }(i)
+			}
+			reqs := s.p.Collect(k, W)
+			if len(reqs) != k {
+				res.Inconclusive = "c13 client: requests missing"
+				s.close()
+				return res
+			}
+			var stream []byte
+			var frames [][]byte
+			for _, rq := range reqs {
+				a := s.p.Answer(rq.Msg)
+				a.Tag = rq.Msg.Tag
+				f := wire.Encode(a, s.p.Dotu())
+				frames = append(frames, f)
+				stream = append(stream, f...)
+			}
+			if mode == "one-segment" {
+				_, _ = s.p.Srv.Write(stream)
+			} else {
+				for _, f := range frames {
+					_, _ = s.p.Srv.Write(f)
+				}
+			}
+			done := make(chan struct{})
+			go func() { wg.Wait(); close(done) }()
+			res.Evals++
+			select {
+			case <-done:
+			case <-time.After(W):
+				res.Violate("C13;client;calls-stuck;coalesced-group;"+mode, fmt.Sprintf("msize %d, round %d: %d concurrent calls did not all return although their replies (%d bytes) were delivered completely, %s", msize, round, k, len(stream), mode), nil)
+				s.close()
+				return res
+			}
+			for i, e := range results {
+				if e != "" {
+					res.Violate("C13;client;result-differs;coalesced-group;"+mode, fmt.Sprintf("msize %d, round %d, call %d: %s", msize, round, i, e), nil)
+				}
+			}
+			if len(res.Violations) > 0 {
+				s.close()
+				return res
+			}
+		}
+		res.Count("client_reply_groups_delivered", int64(rounds))
+		res.Sig(fmt.Sprintf("clnt-groups|%d|%s", msize, mode))
+		s.close()
+	}
+	return res
 }
 
 // c12Client: after Connect the client's msize is min(own, Rversion.msize) and it speaks .u iff it asked for .u
